@@ -48,7 +48,7 @@ INVS = {
 CFG = """SPECIFICATION {spec}
 CONSTANTS Mode = "{mode}" MinKeys = {minkeys} MaxKeys = {maxkeys} MaxLen = {maxlen} MaxEmpty = {maxempty}
           NVals = {nvals} Lists = "{lists}" Opts = "{opts}" NOps = {nops} Shard = {shard} NShards = {nshards}
-          MaxSteps = {maxsteps} ShapeUnary = {unary}
+          MaxSteps = {maxsteps} ShapeSet = "{shapes}"
 INVARIANT {invs}
 """
 
@@ -69,7 +69,7 @@ class Slice:
     nshards: int = 4
     pandas: bool = False
     maxsteps: int = 0  # hist: length of the histories
-    unary: int = 0  # multi: 1 = the sum expressions also have unary MultiSweep(x) nodes
+    shapes: str = "uniform"  # multi: the sum expressions every case is evaluated through ("all" / "uniform")
 
     def cfg(self, shard: int, spec: str = "Spec") -> str:
         d = dataclasses.asdict(self)
@@ -78,11 +78,11 @@ class Slice:
 
 QUICK = [
     Slice("single3", "single", 0, 3, opts="some", nshards=3),
-    Slice("pairs3", "multi", 0, 3, opts="two", nops=2, nshards=4, unary=1),
+    Slice("pairs3", "multi", 0, 3, opts="two", nops=2, nshards=4, shapes="all"),
     Slice("triples3", "multi", 0, 3, opts="two", nops=3, nshards=5),
     Slice("filter3", "filter", 0, 3, opts="ders2", maxempty=1, nshards=3),
     Slice("count3", "count", 0, 3, opts="two", maxempty=1, nshards=1),
-    Slice("hist3", "hist", 0, 3, nops=3, nshards=6, maxsteps=3),
+    Slice("hist3", "hist", 0, 3, maxempty=0, nops=3, nshards=4, maxsteps=3),
 ]
 THOROUGH = [
     Slice("single4", "single", 4, 4, opts="few", nshards=32),
@@ -98,6 +98,8 @@ THOROUGH = [
     Slice("count3-len3", "count", 0, 3, maxlen=3, nvals=3, opts="two", maxempty=1, nshards=24),
     Slice("count4", "count", 4, 4, opts="two", maxempty=0, nshards=8),
     Slice("count3-pandas", "count", 0, 3, opts="none", maxempty=1, nshards=6, pandas=True),
+    Slice("triples3-allshapes", "multi", 3, 3, opts="none", nops=3, nshards=2, shapes="all"),
+    Slice("hist3-empties", "hist", 0, 3, maxempty=1, nops=3, nshards=8, maxsteps=3),
 ]
 JVM_ENV = {"JAVA_TOOL_OPTIONS": "-XX:ParallelGCThreads=2 -XX:CICompilerCount=2"}  # 16 JVMs side by side
 
